@@ -89,7 +89,7 @@ def _base(prng: Prng, workers: int, **kw) -> dict:
 
 
 def gen_cases(tier: str, verif_seed: int, runs: int | None = None) -> list[dict]:
-    reps = 4 if tier == "quick" else 60
+    reps = 4 if tier == "quick" else 400
     cases = []
     i = 0
 
